@@ -235,16 +235,19 @@ def check(ix, rep):
         nst += SS.check_function(ix, rep, f, opn, slot_prefix='dense-online:')
         SS.check_build(ix, rep, f, opn, online=True, slot_prefix='dense-online:')
         ncar += SS.check_carry(ix, rep, f, opn, slot_prefix='dense-online:')
+        SS.check_patchup(ix, rep, f, opn, slot_prefix='dense-online:')
     rep.floor('abstract states of the online sliding-window merge step', nst, 36)
     rep.floor('abstract states of the emit / carry-over split', ncar, 40)
     c = ops.get('TimedSince')
     if c is not None:
         rep.analysed(c.methods['update'])
         SS.check_compose_online(ix, rep, c)
+    nrem = ordkernel.check_remainder(ix, rep, ON_KERNEL)
+    rep.floor('orderings of the remainder loops of the online kernel', nrem, 10)
     c = ops.get('Since')
     if c is not None:
-        f = c.methods['update']
-        rep.undecided('R-OPSUM', f.module.rel, '%s.update' % c.name, 'dense-online:Since', 'carry-over of pending intervals is numeric and not summarised', f.node.lineno)
+        ns = ordkernel.check_since_online(ix, rep, c)
+        rep.floor('orderings of the untimed since merge', ns, 13)
     explanation = (
         'Carry-over structure only. R-STEP: the update visitor steps every operation object exactly once per update (memo keyed by node name, hit '
         'decided by membership and not by the truth value of the cached result). R-SIB: the eleven binary dense-time online operations (and/or/implies/iff/xor, + - * / pow log) have '
@@ -257,8 +260,7 @@ def check(ix, rep):
         'monotonicity), and the influence interval of sample k is (T[k]+begin, T[k+1]+end, V[k]) in affine normal form; R-COMPOSE: '
         'since[a,b] = once[a,b](right) and historically[0,a](left since right) in update() and update_final(). R-CARRY: after the merge every '
         'segment is split at the time of the last input sample -- evaluated on the five orderings of that time against the segment ends: the '
-        'part up to it is emitted, the part beyond it is carried to the next update, nothing is lost or carried twice. NOT decided: the '
-        'untimed since, the `last` bookkeeping of the kernel\'s remainder loops, the provisional end of the last influence interval across updates.')
+        'part up to it is emitted, the part beyond it is carried to the next update, nothing is lost or carried twice. R-ORD (since): the untimed since merges its operand buffers itself; over the 13 orderings it emits iff the segments overlap, at max(starts), the non-strict since step, updates its state and drops the segment ending first. R-ORD (remainder): the two remainder loops of the kernel give, over the five orderings of the exhausted operand\'s last sample against the current segment of the other, the closing sample method(list-1 value, list-2 value) at the last commonly known time, make progress and keep no stale closing sample. R-SEGBUILD (patch-up): when the next batch arrives the last carried segment is re-ended at the first new time-stamp + end. NOT decided: how the binary operations stitch the closing sample of one update to the first sample of the next (duplicate suppression).')
     assumptions = ['observed while probing and outside static reach: once[0,1](a>=2) fed sample by sample differs from the whole-signal run at one instant; '
                    'no structural rule separates that code from a correct one, so it is documented in DESIGN.md and not claimed']
     return explanation, assumptions, 'one instance per sibling and method, per ordering, per summarised operator', {'exhaustive': True}
